@@ -18,6 +18,7 @@ Inductive result :=
 | RNoneHeld                 (* probe answer: the upstream holds no /healthz request *)
 | RAbsent                   (* trigger: endpoint not in the cluster *)
 | RNoMatch                  (* match: no policy matches *)
+| RNoCluster                (* match / hold: the manager has no cluster under the name *)
 | RPicked (id : Z) | RNoReady | RNoSlot     (* Pop *)
 | RHttp (code stub : Z).    (* request through the gateway: status, answering upstream (-1 none) *)
 
@@ -54,7 +55,7 @@ Definition eligible (sv : list (Z * bool)) (sub : list Z) (before : list epobs) 
 Definition any_eligible (sv : list (Z * bool)) (sub : list Z) (before : list epobs) : bool :=
   existsb (eligible sv sub before) (map fst sv).
 
-Fixpoint slot_of (slot : Z) (l : list (Z * list Z)) : option (list Z) :=
+Fixpoint slot_of (slot : Z) (l : list (Z * (Z * list Z))) : option (Z * list Z) :=
   match l with [] => None | (k, v) :: r => if slot =? k then Some v else slot_of slot r end.
 
 Fixpoint same_counts (f : epobs -> Z) (a b : list epobs) : bool :=
@@ -78,24 +79,38 @@ Fixpoint proxied_delta (k : Z) (only : Z) (a b : list epobs) : bool :=
 Record spec_state := mkSpec {
   sp_sv : list (Z * bool);
   sp_subs : list (list Z);
-  sp_slots : list (Z * list Z);     (* slot -> the subset its policy gave when MatchAttributes ran *)
+  sp_slots : list (Z * (Z * list Z));   (* slot -> (cluster incarnation, subset its policy gave) when MatchAttributes ran *)
   sp_before : list epobs;
+  sp_exists : bool;                 (* the cluster exists: created by a sync and not deleted since *)
+  sp_gen : Z;                       (* which incarnation of the cluster (a sync after a deletion creates the next one) *)
+  sp_handles : list (Z * Z);        (* slot -> incarnation of the cluster a caller resolved and kept *)
 }.
 
-Definition spec_init : spec_state := mkSpec [] [] [] [].
+Definition spec_init : spec_state := mkSpec [] [] [] [] false 0 [].
+
+(* a handle / picker taken from an incarnation of the cluster that has been deleted since is stale: whatever
+   it still remembers, nothing of it is in "the current server list of a cluster that exists" *)
+Definition fresh (sp : spec_state) (g : Z) : bool := sp_exists sp && (g =? sp_gen sp).
+Fixpoint handle_of (slot : Z) (l : list (Z * Z)) : option Z :=
+  match l with [] => None | (k, v) :: r => if slot =? k then Some v else handle_of slot r end.
 
 (* clause 1: a picked / contacted endpoint is eligible *)
 Definition pick_sound_ok (sp : spec_state) (o : op) (b : obs) : bool :=
   match o, ores b with
   | OPop slot, RPicked id =>
       match slot_of slot (sp_slots sp) with
-      | Some sub => eligible (sp_sv sp) sub (sp_before sp) id
+      | Some (g, sub) => fresh sp g && eligible (sp_sv sp) sub (sp_before sp) id
+      | None => false
+      end
+  | OPickOne slot, RPicked id =>
+      match handle_of slot (sp_handles sp) with
+      | Some g => fresh sp g && eligible (sp_sv sp) [] (sp_before sp) id
       | None => false
       end
   | ORequest p, RHttp code stub =>
       if 0 <=? stub then
         match policy_subset (sp_subs sp) p with
-        | Some sub => eligible (sp_sv sp) sub (sp_before sp) stub
+        | Some sub => sp_exists sp && eligible (sp_sv sp) sub (sp_before sp) stub
         | None => false
         end
       else true
@@ -107,13 +122,19 @@ Definition pick_complete_ok (sp : spec_state) (o : op) (b : obs) : bool :=
   match o with
   | OPop slot =>
       match slot_of slot (sp_slots sp) with
-      | Some sub => if any_eligible (sp_sv sp) sub (sp_before sp) then true
-                    else match ores b with RNoReady => true | _ => false end
+      | Some (g, sub) => if fresh sp g && any_eligible (sp_sv sp) sub (sp_before sp) then true
+                         else match ores b with RNoReady => true | _ => false end
+      | None => true
+      end
+  | OPickOne slot =>
+      match handle_of slot (sp_handles sp) with
+      | Some g => if fresh sp g && any_eligible (sp_sv sp) [] (sp_before sp) then true
+                  else match ores b with RNoReady => true | _ => false end
       | None => true
       end
   | ORequest p =>
       match policy_subset (sp_subs sp) p with
-      | Some sub => if any_eligible (sp_sv sp) sub (sp_before sp) then true
+      | Some sub => if sp_exists sp && any_eligible (sp_sv sp) sub (sp_before sp) then true
                     else match ores b with
                          | RHttp code stub => (code =? 503) && (stub =? -1)
                                               && proxied_delta 0 (-1) (sp_before sp) (oeps b)
@@ -134,7 +155,7 @@ Definition contacted_ok (sp : spec_state) (o : op) (b : obs) : bool :=
   end.
 
 Definition spec_after (sp : spec_state) (o : op) : list (Z * bool) :=
-  match o with OSync sv _ => sv | _ => sp_sv sp end.
+  match o with OSync sv _ => sv | ODelete => [] | _ => sp_sv sp end.
 
 Fixpoint forall_ids (k : Z) (f : Z -> epobs -> epobs -> bool) (a b : list epobs) : bool :=
   match b with
@@ -162,15 +183,28 @@ Definition removed_no_probe_ok (sp : spec_state) (o : op) (b : obs) : bool :=
                               then ohits y =? ohits x else true) (sp_before sp) (oeps b).
 
 Definition spec_step (sp : spec_state) (o : op) (b : obs) : spec_state :=
+  let keep sv subs slots ex g hs := mkSpec sv subs slots (oeps b) ex g hs in
   match o with
-  | OSync sv subs => mkSpec sv subs (sp_slots sp) (oeps b)
+  | OSync sv subs =>
+      keep sv subs (sp_slots sp) true (if sp_exists sp then sp_gen sp else sp_gen sp + 1) (sp_handles sp)
+  | ODelete => keep [] [] (sp_slots sp) false (sp_gen sp) (sp_handles sp)
   | OMatch p slot =>
       let rest := filter (fun x => negb (fst x =? slot)) (sp_slots sp) in
-      match policy_subset (sp_subs sp) p, ores b with
-      | Some sub, ROk => mkSpec (sp_sv sp) (sp_subs sp) ((slot, sub) :: rest) (oeps b)
-      | _, _ => mkSpec (sp_sv sp) (sp_subs sp) rest (oeps b)
+      match ores b with
+      | RNoCluster => keep (sp_sv sp) (sp_subs sp) (sp_slots sp) (sp_exists sp) (sp_gen sp) (sp_handles sp)
+      | r =>
+          match policy_subset (sp_subs sp) p, r with
+          | Some sub, ROk => keep (sp_sv sp) (sp_subs sp) ((slot, (sp_gen sp, sub)) :: rest) (sp_exists sp) (sp_gen sp) (sp_handles sp)
+          | _, _ => keep (sp_sv sp) (sp_subs sp) rest (sp_exists sp) (sp_gen sp) (sp_handles sp)
+          end
       end
-  | _ => mkSpec (sp_sv sp) (sp_subs sp) (sp_slots sp) (oeps b)
+  | OHold slot =>
+      match ores b with
+      | ROk => keep (sp_sv sp) (sp_subs sp) (sp_slots sp) (sp_exists sp) (sp_gen sp)
+                    ((slot, sp_gen sp) :: filter (fun x => negb (fst x =? slot)) (sp_handles sp))
+      | _ => keep (sp_sv sp) (sp_subs sp) (sp_slots sp) (sp_exists sp) (sp_gen sp) (sp_handles sp)
+      end
+  | _ => keep (sp_sv sp) (sp_subs sp) (sp_slots sp) (sp_exists sp) (sp_gen sp) (sp_handles sp)
   end.
 
 Definition step_ok (sp : spec_state) (o : op) (b : obs) : list bool :=
